@@ -11,7 +11,11 @@ from . import codec
 from .common import PY, REPO, MachineryError
 
 COVERED = ["CONV_2D", "DEPTHWISE_CONV_2D", "MAX_POOL_2D", "AVERAGE_POOL_2D", "ADD", "SUB", "MUL", "FULLY_CONNECTED",
-           "RESHAPE", "SQUEEZE", "EXPAND_DIMS", "MEAN"]
+           "RESHAPE", "SQUEEZE", "EXPAND_DIMS", "MEAN",
+           # round 4
+           "TRANSPOSE_CONV", "RESIZE_BILINEAR", "RESIZE_NEAREST_NEIGHBOR", "SOFTMAX", "LEAKY_RELU", "HARD_SWISH", "ABS", "EXP",
+           "RSQRT", "LOGISTIC", "TANH", "RELU", "RELU6", "RELU_N1_TO_1", "MINIMUM", "MAXIMUM", "SQUARED_DIFFERENCE",
+           "CONCATENATION", "SPLIT", "SPLIT_V", "SLICE", "STRIDED_SLICE", "TRANSPOSE", "PAD", "ARG_MAX"]
 
 
 def generate(tmpdir):
@@ -166,15 +170,68 @@ SPECIFIC_PATTERNS = [
                   r"8-bit inputs\. - (\d+) for signed 16-bit inputs\.$", ("MeanProdI8", "MeanProdU8", "MeanProdI16")),
     ("mean_width", r"^If Width axis is reduced its shape must be no greater than (\d+)\.$", ("MeanWMax",)),
     ("mean_depth", r"^If Depth axis is reduced its shape must be no greater than (\d+)\.$", ("MeanDMax",)),
+    # ---- round 4
+    ("in_s816", r"^IFM must be int8 or int16$", ()),
+    ("in_8bit", r"^IFM must be int8 or uint8$", ()),
+    ("in_int8", r"^IFM must be int8$", ()),
+    ("am_out", r"^OFM must be int32 or int64$", ()),
+    ("am_axis", r"^Operation must be performed along the depth axis$", ()),
+    ("am_depth", r"^IFM depth must be no greater than (\d+)$", ("ArgMaxDepth",)),
+    ("qmatch2", r"^Both Input quantization parameters must match OFM quantization parameters$", ()),
+    ("sm_shapes", r"^IFM and OFM shapes must match$", ()),
+    ("sm_beta", r"^Beta value needs to be positive$", ()),
+    ("cc_axis_exists", r"^Axis attribute must exist$", ()),
+    ("cc_axis", r"^Axis attribute must be in the range \[0, <ofm_dimensions>\)$", ()),
+    ("cc_rank", r"^All Input dimensionalities must match OFM dimensionality$", ()),
+    ("cc_dims", r"^All Input dimensions must match OFM dimension in all axes except the one defined by the axis attribute$", ()),
+    ("cc_sum", r"^The size of the OFM axis must match the sum of all IFM axis defined by the axis attribute$", ()),
+    ("pad_nin", r"^Number of input tensors must be exactly 2$", ()),
+    ("pad_const", r"^The padding tensor must be constant$", ()),
+    ("pad_oshape", r"^Shape of output tensor must equal to size of input tensor plus padding$", ()),
+    ("pad_shape", r"^The padding tensor must have the shape \[(\d+),2\] or \[(\d+),2\]$", ("PadRowsA", "PadRowsB")),
+    ("pad_type", r"^Pad tensor must be of type: (.+)$", ("PadTypes",)),
+    ("rz_dims", r"^The width and height of the IFM and OFM must match one of the following criteria: IFM W and H must both be 1 "
+                r"IFM must match OFM W and H scaling must be equal and OFM W-1 and H-1 must be (\d+)x/(\d+)x/(\d+)x IFM W-1 and "
+                r"H-1, if align_corners is True W and H scaling must be equal and OFM W and H must be (\d+)x/(\d+)x/(\d+)x IFM W "
+                r"and H, if align_corners is False$", ("RzA1", "RzA2", "RzA3", "RzF1", "RzF2", "RzF3")),
+    ("rz_size", r"^The size tensor must match the output tensor shape$", ()),
+    ("rz_attrs", r"^Both align_corners and half_pixel_centers can't be True$", ()),
+    ("rz_half", r"^For half_pixel_centers the width and height of the IFM and OFM must match one of the following criteria: "
+                r"IFM W and H are both 1 OFM W and H is (\d+)x IFM W and H$", ("RzHalfFactor",)),
+    ("sl_const", r"^Begin and Size Input tensors must be constant$", ()),
+    ("sp_axis", r"^Axis value must be in the range \[-RANK\(IFM\) to \+RANK\(IFM\)\)$", ()),
+    ("sp_div", r"^Axis must be divisible by number of splits$", ()),
+    ("sv_inferred", r"^Only one size is allowed to be inferred$", ()),
+    ("ss_nin", r"^Exactly 4 Input tensors are required$", ()),
+    ("ss_const", r"^Begin, End and Stride Input tensors must be constant$", ()),
+    ("ss_ellipsis", r"^ellipsis_mask must be 0$", ()),
+    ("ss_masks", r"^new_axis_mask and shrink_axis_mask cannot both be set$", ()),
+    ("ss_ranges", r"^Slice 'end' values must be greater than 'begin' values$", ()),
+    ("ss_strides", r"^All Strides values must be 1$", ()),
+    ("ss_offset", r"^Offset attribute must be False$", ()),
+    ("tr_size", r"^Permutation array must be a 1D tensor with RANK\(IFM\) elements$", ()),
+    ("tr_values", r"^Permutation array must have constant values in the range \[0, RANK\(IFM\)\)$", ()),
+    ("tr_perm", r"^The following shape/permutations are supported for transpose: When ifm rank is 2: WxC -> CxW When ifm rank "
+                r"is 3: HxWxC -> WxHxC, 1xWxC -> 1xCxW, Hx1xC -> Cx1xH When ifm rank is 4: 1xHxWxC -> 1xWxHxC, 1x1xWxC -> "
+                r"1x1xCxW, 1xHx1xC -> 1xCx1xW$", ()),
+    ("tc_stride", r"^Stride values for width and height must match one of the following criteria: Stride values WxH must be "
+                  r"1x1 or 2x2 Stride WxH 2x1 supported if ifm height and kernel height = 1$", ()),
+    ("tc_same", r"^SAME padding: OFM dimensions must equal IFM dimensions multiplied by stride$", ()),
+    ("tc_valid", r"^VALID padding: OFM dimensions must equal IFM dimensions multiplied by stride, minus difference between "
+                 r"kernel size and stride$", ()),
 ]
-SET_CONSTS = {"ScalarOps", "TypeSet", "Int32Ops", "PerAxisOps", "FafSet", "FafOutTypes", "BiasTypes"}
+SET_CONSTS = {"ScalarOps", "TypeSet", "Int32Ops", "PerAxisOps", "FafSet", "FafOutTypes", "BiasTypes", "PadTypes"}
 # per-operator constants: the same bullet text may carry different numbers for different operators
 PER_OP = {"ScHLo", "ScHHi", "ScWLo", "ScWHi", "DilHLo", "DilHHi", "DilPLo", "DilPHi", "WSumMax", "BiasTypes", "BiasBits"}
 DEFAULTS = {"MaxRank": 0, "DimLo": 0, "DimHi": 0, "BatchVal": 1, "TypeSet": [], "Int32Ops": [], "PerAxisOps": [],
             "FafSet": [], "FafOutTypes": [], "ScalarOps": [], "BatchExempt": [],
             "DwSLo": 0, "DwSHi": 0, "PsLo": 0, "PsHi": 0, "MpHLo": 0, "MpHHi": 0, "MpPLo": 0, "MpPHi": 0,
             "MeanMinRank": 0, "MeanProdI8": 0, "MeanProdU8": 0, "MeanProdI16": 0, "MeanWMax": 0, "MeanDMax": 0,
-            "ApSwMin": 0, "ApSwValidAbove": 0, "ApFLo": 0, "ApFHi": 0, "ApVHLo": 0, "ApVHHi": 0, "ApVPLo": 0, "ApVPHi": 0}
+            "ApSwMin": 0, "ApSwValidAbove": 0, "ApFLo": 0, "ApFHi": 0, "ApVHLo": 0, "ApVHHi": 0, "ApVPLo": 0, "ApVPHi": 0,
+            "ArgMaxDepth": 0, "PadTypes": [], "RzHalfFactor": 0}
+# constants assembled from several captures of one bullet: name -> the captures that make up the set
+DERIVED_SETS = {"PadRows": ("PadRowsA", "PadRowsB"), "RzAlignFactors": ("RzA1", "RzA2", "RzA3"), "RzFactors": ("RzF1", "RzF2", "RzF3")}
+_DERIVED_PARTS = {p for parts in DERIVED_SETS.values() for p in parts}
 PER_OP_DEFAULTS = {"ScHLo": 0, "ScHHi": 0, "ScWLo": 0, "ScWHi": 0, "DilHLo": 0, "DilHHi": 0, "DilPLo": 0, "DilPHi": 0,
                    "WSumMax": 0, "BiasTypes": [], "BiasBits": 0}
 
@@ -235,6 +292,10 @@ def constants(parsed):
                 unmodelled.setdefault(op, []).append(text)
             else:
                 listed[op].append(hit)
+    for name, parts in DERIVED_SETS.items():
+        K[name] = sorted({K[p] for p in parts if p in K})
+    for p in _DERIVED_PARTS:
+        K.pop(p, None)
     return K, listed, unmodelled
 
 
